@@ -39,6 +39,8 @@ const (
 	slotBig2  = -8  // a second large file (knob big=2)
 	slotGone  = -9  // a directory removed during the set-up: its handle is stale
 	slotGoneF = -10 // a file removed during the set-up
+	slotRd    = -11 // knob replace: the directory with the highest inode number of the set-up
+	slotRf    = -12 // knob replace: a file inside it whose inode number is smaller than the directory's
 )
 
 var concNames = []string{"a", "b", "c"}
@@ -99,6 +101,24 @@ func (concEngine) Gen(prop string, seed uint64, tier string) *Spec {
 		spec.Knobs["halffreed"] = 1
 		spec.Disk += 2000
 	}
+	if (prop == "C03" || prop == "C06") && spec.Knobs["dirmoves"] == 0 && spec.Knobs["big"] != 2 && rng.Chance(0.05) {
+		// replace mode: one client moves a file out of a directory, removes the
+		// directory, makes a new one under the same name and moves the file back -
+		// and because the server was just restarted and the directory had the
+		// highest inode number, the new directory gets the old one's inode number.
+		// The other clients work on the old directory's handle meanwhile (no
+		// inode-allocating requests, so that the number really is reused), one of
+		// them held at an inode-lock acquisition: every request that drops its
+		// locks and re-locks must notice that its handle died in between.
+		spec.Knobs["replace"] = 1
+		spec.Knobs["cold"] = 1
+		delete(spec.Knobs, "halffreed")
+		if ncl < 3 && rng.Chance(0.5) {
+			ncl = 3
+		}
+		spec.Knobs["direct_task"] = int64(1 + rng.Intn(ncl-1))
+		spec.Knobs["direct_n"] = int64(rng.Intn(7))
+	}
 	if prop == "C01" {
 		// crash mode: the disk is cut off at points of the concurrent phase's write
 		// stream; all writes are stable, so every acknowledged operation must survive
@@ -118,6 +138,39 @@ func (concEngine) Gen(prop string, seed uint64, tier string) *Spec {
 	for c := 0; c < ncl; c++ {
 		n := 3 + rng.Intn(maxops-2)
 		var ops []Op
+		if spec.Knobs["replace"] == 1 {
+			if c == 0 {
+				ops = []Op{{K: "rename", H: slotRd, N: "a", H2: slotRoot, N2: "tmpx"}, {K: "rmdir", H: slotRoot, N: "rd"},
+					{K: "mkdir", H: slotRoot, N: "rd"}, {K: "rename", H: slotRoot, N: "tmpx", H2: 2, N2: "a"}}
+				if rng.Chance(0.3) {
+					ops = append(ops, Op{K: "lookup", H: 2, N: "a"})
+				}
+			} else {
+				nm := func() string { return []string{"a", "a", "a", "b", "..", "tmpx"}[rng.Intn(6)] }
+				ds := func() int { return []int{slotRd, slotRd, slotRd, slotRoot}[rng.Intn(4)] }
+				for i := 0; i < 1+rng.Intn(3); i++ {
+					switch rng.Pick([]int{10, 6, 3, 6, 2, 2, 2}) {
+					case 0:
+						ops = append(ops, Op{K: "remove", H: slotRd, N: nm()})
+					case 1:
+						ops = append(ops, Op{K: "lookup", H: slotRd, N: nm()})
+					case 2:
+						ops = append(ops, Op{K: "rmdir", H: slotRd, N: nm()})
+					case 3:
+						ops = append(ops, Op{K: "rename", H: slotRd, N: nm(), H2: ds(), N2: []string{"a", "b", "c"}[rng.Intn(3)]})
+					case 4:
+						ops = append(ops, Op{K: "readdirplus", H: slotRd, Len: 100000})
+					case 5:
+						ops = append(ops, Op{K: "getattr", H: []int{slotRd, slotRf}[rng.Intn(2)]})
+					case 6:
+						ops = append(ops, Op{K: "write", H: slotRf, Off: 0, Len: 100, Cnt: 100, Pat: pat, How: 2})
+						pat++
+					}
+				}
+			}
+			spec.Clients = append(spec.Clients, ops)
+			continue
+		}
 		dirSlot := func() int {
 			if rng.Chance(0.03) {
 				return slotGone // every procedure must answer a stale handle as such, also under concurrency
@@ -483,6 +536,24 @@ func (x *concRun) main() {
 		}
 		x.setupCall(&In{K: "commit", Obj: big2.H})
 	}
+	if spec.knob("replace", 0) != 0 {
+		// fill the inode numbers the set-up freed (a restarted allocator hands out
+		// the lowest free number first), then make a file and, after it, a directory:
+		// the directory has the highest number in use, the file inside it a smaller one
+		x.rig.Shutdown()
+		x.rig = startServer(x.d, x.rig.Unstable, spec.knob("icache", 0), spec.knob("nshard", 0))
+		x.m.VerfSeen = false
+		nfill := 2
+		if spec.knob("recycle", 0) != 0 {
+			nfill += 4
+		}
+		for i := 0; i < nfill; i++ {
+			x.setupCall(&In{K: "create", Obj: rootH, Name: fmt.Sprintf("fill%d", i), How: 1})
+		}
+		x.setup[slotRf] = x.setupCall(&In{K: "create", Obj: rootH, Name: "rf", How: 1}).H
+		x.setup[slotRd] = x.setupCall(&In{K: "mkdir", Obj: rootH, Name: "rd"}).H
+		x.setupCall(&In{K: "rename", Obj: rootH, Name: "rf", Obj2: x.setup[slotRd], Name2: "a"})
+	}
 	if halfFreed {
 		x.setupCall(&In{K: "remove", Obj: rootH, Name: "halffreed"})
 		simrt.Scope(x.rig.Group, func() { x.rig.Srv.Crash() })
@@ -610,6 +681,9 @@ func (x *concRun) main() {
 				r.out = out
 				if out.Status == 0 && out.HasH {
 					got[i] = out.H
+					if in.K == "mkdir" && spec.knob("replace", 0) != 0 && len(out.H) >= 8 && len(x.setup[slotRd]) >= 8 && out.H[:8] == x.setup[slotRd][:8] {
+						x.res.count("probe_inum_reused_while_old_handle_in_use", 1)
+					}
 				}
 				simrt.SetTag("")
 			}
